@@ -135,6 +135,71 @@ def guarded(ctx, case, fn, *args):
         raise
 
 
+SENT = 7.25
+
+
+class Views:
+    """hands tensors to the implementation as views of larger, sentinel-filled buffers (interior slice, every-other
+    element, transposed storage) and verifies afterwards that the buffers are bit-for-bit what they were — for an
+    argument the API updates in place (CG's initial guess) that the storage OUTSIDE the view is untouched."""
+
+    def __init__(self):
+        self.owned = []
+
+    def make(self, name, t, mode, writable=False):
+        if mode in (None, "plain") or t.layout != torch.strided or t.dim() == 0:
+            return t
+        if mode == "T":
+            if t.dim() < 2:
+                return t
+            v = t.mT.contiguous().mT
+            buf, inside = v, None
+        elif mode == "slice":
+            shp = list(t.shape)
+            shp[-1] += 3
+            if t.dim() >= 2:
+                shp[-2] += 2
+            buf = torch.full(shp, SENT, dtype=t.dtype)
+            v = buf[..., 1:1 + t.shape[-2], 2:2 + t.shape[-1]] if t.dim() >= 2 else buf[..., 2:2 + t.shape[-1]]
+            v.copy_(t)
+        else:  # "strided": every other element
+            shp = list(t.shape)
+            shp[-1] = 2 * shp[-1] + 1
+            if t.dim() >= 2:
+                shp[-2] = 2 * shp[-2]
+            buf = torch.full(shp, SENT, dtype=t.dtype)
+            v = buf[..., ::2, 1::2] if t.dim() >= 2 else buf[..., 1::2]
+            v.copy_(t)
+        self.owned.append((name, buf, buf.clone(), v if writable else None))
+        return v
+
+    def dirty(self):
+        bad = []
+        for name, buf, snap, wview in self.owned:
+            if wview is not None:       # compare only the storage outside the writable view
+                mask = torch.zeros_like(buf, dtype=torch.bool)   # position of the view inside its buffer
+                mask.as_strided(wview.shape, wview.stride(), wview.storage_offset() - buf.storage_offset()).fill_(True)
+                if not torch.equal(buf[~mask], snap[~mask]):
+                    bad.append(name + " (storage outside the view)")
+            elif not torch.equal(buf, snap):
+                bad.append(name)
+        return bad
+
+
+def reuse_buf(case, name, t):
+    """stale-read class: inside an `inplace` history the caller keeps ONE tensor per argument and overwrites it in place
+    (copy_) between calls; the implementation must read the current contents"""
+    buf = case.get("_buf")
+    if buf is None:
+        return t
+    key = (name, tuple(t.shape), t.dtype)
+    if key in buf:
+        buf[key].copy_(t)
+        return buf[key]
+    buf[key] = t.clone()
+    return buf[key]
+
+
 def pub(case):
     return {k: v for k, v in case.items() if not k.startswith("_")}
 
@@ -219,8 +284,23 @@ def ls_build(case):
     m, n, dtype = case["m"], case["n"], case["dtype"]
     items = [ls_item(it, m, n, dtype) for it in case["items"]]
     bs = tuple(case["batch"])
+    exp = case.get("expand") if len(items) > 1 else None
+    if exp == "A":      # one matrix for the whole batch (stride-0 batch dimensions), own right-hand sides
+        items = [(items[0][0], it[1], items[0][2], items[0][3], items[0][4]) for it in items]
+    elif exp == "b":
+        items = [(it[0], items[0][1], it[2], it[3], it[4]) for it in items]
+    if case.get("alias"):   # the right-hand side IS the first column of A (a view of the same tensor)
+        items = [(it[0], it[0][:, :1].clone(), it[2], it[3], it[4]) for it in items]
+    if not items:           # empty batch
+        return torch.zeros(bs + (m, n), dtype=tdt(dtype)), torch.zeros(bs + (m, 1), dtype=tdt(dtype)), items
     A = torch.stack([x[0] for x in items]).reshape(bs + (m, n))
     b = torch.stack([x[1] for x in items]).reshape(bs + (m, 1))
+    if exp == "A":
+        A = items[0][0].expand(bs + (m, n))
+    elif exp == "b":
+        b = items[0][1].expand(bs + (m, 1))
+    if case.get("alias"):
+        b = A[..., :, 0:1]
     return A, b, items
 
 
@@ -236,6 +316,11 @@ def check_ls(ctx: Ctx, case, lines_out=None) -> bool:
     name, dtype, m, n = case["solver"], case["dtype"], case["m"], case["n"]
     eps = EPS[dtype]
     A, b, items = ls_build(case)
+    V = Views()
+    if "_buf" in case:
+        A, b = reuse_buf(case, "A", A), reuse_buf(case, "b", b)
+    elif not (case.get("alias") or case.get("expand")):
+        A, b = V.make("A", A, case.get("view")), V.make("b", b, case.get("viewb"))
     A0, b0 = A.clone(), b.clone()
     sol = case.get("_sol") or make_solver(name)
     default_cfg = name in ("PINV", "LSTSQ", "LSTSQ:gelsd", "LSTSQ:gelss", "PINV:herm")  # others: wrapper stream only
@@ -247,8 +332,8 @@ def check_ls(ctx: Ctx, case, lines_out=None) -> bool:
     ok = True
     if bad_result(ctx, rep_case(case), x, name, sfx(case)):
         return False
-    if not (torch.equal(A, A0) and torch.equal(b, b0)):
-        ctx.fail(rep_case(case), f"mutation: {name} changed its arguments" + sfx(case))
+    if not (torch.equal(A, A0) and torch.equal(b, b0)) or V.dirty():
+        ctx.fail(rep_case(case), f"mutation: {name} changed its arguments {V.dirty()} (views {case.get('view')}/{case.get('viewb')})" + sfx(case))
         ok = False
     if tuple(x.shape) != tuple(case["batch"]) + (n, 1) or x.dtype != A.dtype:
         ctx.fail(rep_case(case), f"shape: {name} returned shape {tuple(x.shape)} dtype {x.dtype} for A {tuple(A.shape)}" + sfx(case))
@@ -270,6 +355,25 @@ def check_ls(ctx: Ctx, case, lines_out=None) -> bool:
         rec = {"k": k, "r": r, "s1": s1, "sr": sr, "x": xf[k].flatten(), "A": Af[k], "b": bf[k].flatten(),
                "B": Bi, "C": Ci, "K": Kf[k], "default": default_cfg}
         recs.append(rec)
+        if len(items) > 1:
+            # item-wise = batched: the same solver on item k alone (batch-level any()/all()/max() decisions show here)
+            Ak = A.reshape(-1, m, n)[k].clone()
+            bk = b.reshape(-1, m, 1)[k].clone()
+            try:
+                xa = make_solver(name)(Ak, bk)
+                da = float((xa.double().flatten() - rec["x"]).norm())
+                kap_k = (s1 / sr) if (r > 0 and sr > 0) else 1.0
+                bnk = float(rec["b"].norm())
+                tola = 64 * eps * max(m, n) * kap_k * (float(rec["x"].norm()) + (bnk / sr if sr > 0 else 0.0))
+                ctx.count("ls.itemwise")
+                if da > tola + 1e-300:
+                    ctx.fail({**rep_case(case), "item": k}, f"batch-item: {name} on item {k} of the batch differs from the same call on "
+                                                           f"that item alone by {da:.3e} > {tola:.3e} ({m}x{n}, rank {r}, {dtype})" + sfx(case))
+                    ok = False
+            except Exception as e:
+                ctx.fail({**rep_case(case), "item": k}, f"batch-item: {name} returned for the batch but raised on item {k} alone: "
+                                                       f"{type(e).__name__}: {str(e)[:80]}" + sfx(case))
+                ok = False
         if lines_out is not None:
             lines_out.append((case, rec, "cert", f"c10.lscert {m} {n} {wl(Af[k])} {wl(bf[k])} {wl(xf[k])}"))
             if default_cfg and r > 0:
@@ -446,8 +550,24 @@ def chol_build(case):
     n, dtype = case["n"], case["dtype"]
     items = [chol_item(it, n, dtype) for it in case["items"]]
     bs = tuple(case["batch"])
+    exp = case.get("expand") if len(items) > 1 else None
+    if exp == "A":
+        items = [(items[0][0], it[1]) for it in items]
+    elif exp == "b":
+        items = [(it[0], items[0][1]) for it in items]
+    if case.get("alias"):
+        items = [(it[0], it[0][:, :it[1].shape[1]].clone()) for it in items]
+    if not items:
+        return torch.zeros(bs + (n, n), dtype=tdt(dtype)), torch.zeros(bs + (n, 1), dtype=tdt(dtype)), items
+    nr = items[0][1].shape[1]
     A = torch.stack([x[0] for x in items]).reshape(bs + (n, n))
-    b = torch.stack([x[1] for x in items]).reshape(bs + (n, items[0][1].shape[1]))
+    b = torch.stack([x[1] for x in items]).reshape(bs + (n, nr))
+    if exp == "A":
+        A = items[0][0].expand(bs + (n, n))
+    elif exp == "b":
+        b = items[0][1].expand(bs + (n, nr))
+    if case.get("alias"):
+        b = A[..., :, 0:nr]
     return A, b, items
 
 
@@ -461,6 +581,12 @@ def run_chol_cases(ctx: Ctx, cases):
     built = []
     for ci, case in enumerate(cases):
         A, b, items = chol_build(case)
+        V = Views()
+        if "_buf" in case:
+            A, b = reuse_buf(case, "A", A), reuse_buf(case, "b", b)
+        elif not (case.get("alias") or case.get("expand")):
+            A, b = V.make("A", A, case.get("view")), V.make("b", b, case.get("viewb"))
+        case["_views"] = V
         built.append((A, b, items))
         n = case["n"]
         for k, (Ai, bi) in enumerate(items):
@@ -503,8 +629,9 @@ def run_chol_cases(ctx: Ctx, cases):
                 raised = e
             cc = rep_case(case)
             hs = sfx(case)
-            if not (torch.equal(A, A0) and torch.equal(b, b0)):
-                ctx.fail(cc, "mutation: Cholesky changed its arguments" + hs)
+            V = case.pop("_views", None) or Views()
+            if not (torch.equal(A, A0) and torch.equal(b, b0)) or V.dirty():
+                ctx.fail(cc, f"mutation: Cholesky changed its arguments {V.dirty()} (views {case.get('view')}/{case.get('viewb')})" + hs)
             if raised is not None:
                 if must_return:
                     ctx.fail(cc, f"chol-raises: Cholesky raised on a symmetric positive-definite system (n={n}, {dtype}, "
@@ -531,6 +658,22 @@ def run_chol_cases(ctx: Ctx, cases):
             xf = x.reshape(-1, n, b.shape[-1]).double()
             Af = A.reshape(-1, n, n).double()
             bf = b.reshape(-1, n, b.shape[-1]).double()
+            if len(items) > 1:
+                for k in range(len(items)):
+                    if regions[k] != "pd":
+                        continue
+                    try:
+                        xa = S().Cholesky(upper=case["upper"])(A.reshape(-1, n, n)[k].clone(), b.reshape(-1, n, b.shape[-1])[k].clone())
+                        da = float((xa.double() - xf[k]).norm())
+                        sv = torch.linalg.svdvals(Af[k])
+                        tola = 64 * eps * n * float(sv[0] / sv[-1].clamp_min(1e-300)) * float(xf[k].norm())
+                        ctx.count("chol.itemwise")
+                        if da > tola + 1e-300:
+                            ctx.fail({**cc, "item": k}, f"batch-item: Cholesky on item {k} of the batch differs from the same call on that "
+                                                        f"item alone by {da:.3e} > {tola:.3e} (n={n}, {dtype})" + hs)
+                    except Exception as e:
+                        ctx.fail({**cc, "item": k}, f"batch-item: Cholesky returned for the batch but raised on the positive-definite item {k} "
+                                                    f"alone: {type(e).__name__}" + hs)
             for k in range(len(items)):
                 pdm, pd, pdp, info, xm = model[(ci, k)]
                 if regions[k] != "pd":
@@ -703,12 +846,29 @@ def make_cg(tol, maxiter):
 
 def cg_call(case, A, b, x0, M, spy=False):
     sol = case.get("_sol") or make_cg(case["tol"], case["maxiter"])
-    Al = to_layout(A, case["layout"])
-    Ml = None if M is None else to_layout(M, case["Mlayout"])
+    V = Views()
     bb = b[:, 0].clone() if case["bshape"] == "vec" else b.clone()
     xx = None if x0 is None else x0.clone()
+    if "_buf" in case:
+        A = reuse_buf(case, "A", A) if case["layout"] == "dense" else A
+        bb = reuse_buf(case, "b", bb)
+        xx = None if xx is None else reuse_buf(case, "x0", xx)
+        M = None if M is None else (reuse_buf(case, "M", M) if case["Mlayout"] == "dense" else M)
+    else:
+        if case["layout"] == "dense":
+            A = V.make("A", A, case.get("view"))
+        if M is not None and case["Mlayout"] == "dense":
+            M = V.make("M", M, case.get("view"))
+        bb = V.make("b", bb, case.get("viewb"))
+        if xx is not None:
+            xx = V.make("x0", xx, case.get("viewb"), writable=True)
+    case["_views"] = V
+    Al = to_layout(A, case["layout"])
+    Ml = None if M is None else to_layout(M, case["Mlayout"])
     K = None
-    if spy and case["layout"] == "dense":
+    if "_buf" in case:       # stale-read histories hand over the caller's very own tensor objects (no wrapper)
+        x = sol(Al, bb, xx, Ml)
+    elif spy and case["layout"] == "dense":
         Spy.log = []
         x = sol(Al.as_subclass(Spy), bb, xx, Ml)
         K = Spy.log.count("out")
@@ -747,6 +907,9 @@ def check_cg(ctx: Ctx, case):
         ctx.fail(cc, "mutation: CG changed A or b" + hs)
     if M is not None and not torch.equal(Ml.to_dense() if Ml.layout != torch.strided else Ml, M):
         ctx.fail(cc, "mutation: CG changed the preconditioner" + hs)
+    V = case.pop("_views", None)
+    if V is not None and V.dirty():
+        ctx.fail(cc, f"mutation: CG wrote to storage it does not own: {V.dirty()} (views {case.get('view')}/{case.get('viewb')})" + hs)
     if bad_result(ctx, cc, x, "CG", hs):
         return None, K
     if x.layout != torch.strided:
@@ -979,6 +1142,20 @@ def check_sparse(ctx: Ctx, case, lines_out=None):
         ctx.fail(cc, f"sparse-product: {case['api']} != dense product (grid {sm}x{sn}x{sp}, blocks {dm}x{dn}x{dp}, patterns "
                      f"{case['pa']}/{case['pb']}, max error {float(bad.max()):.3e} at ({i},{j}), block ({i // dm},{j // dp}))")
         ok = False
+    if case.get("stale") and len(col):
+        # the caller updates the operand's values in place and multiplies again: the result must describe the current state
+        bsr.values().mul_(2)
+        try:
+            y2 = fn(bsr, bsc)
+            y2d = valid_dense(y2) if isinstance(y2, torch.Tensor) else None
+        except Exception:
+            y2d = None
+        bsr.values().div_(2)
+        ctx.count("sparse.stale")
+        if y2d is None or not torch.equal(y2d.double(), 2 * yd):
+            ctx.fail(cc, f"sparse-stale: after doubling the BSR operand's values in place the product is not twice the first result "
+                         f"(grid {sm}x{sn}x{sp}, blocks {dm}x{dn}x{dp})")
+            ok = False
     if lines_out is not None:
         line = (f"c10.bsrbsc {sm} {sn} {sp} {dm} {dn} {dp} {len(col)} {len(row)} " + " ".join(map(str, crow)) + " " +
                 " ".join(map(str, col)) + " " + " ".join(map(str, ccol)) + " " + " ".join(map(str, row)) + " " +
@@ -1141,6 +1318,103 @@ def corner_histories():
     return H
 
 
+def corner_cases():
+    """deterministic corpus, identical for every seed, run BEFORE the random streams: the named hard spots of every
+    stream (so that detection of a regression in one of them never depends on the seed)."""
+    def ls(solver, m, n, items, batch=(), dtype="float64", **kw):
+        its = []
+        for j, it in enumerate(items):
+            d = {"kind": "float", "cexp": 0, "ascale": 0, "b": "generic", "bscale": 0, "seed": 7000 + 13 * j + m * 41 + n}
+            d.update(it)
+            its.append(d)
+        return {"kind": "ls", "solver": solver, "dtype": dtype, "batch": list(batch), "m": m, "n": n, "items": its, **kw}
+
+    def ch(n, items, upper=False, batch=(), dtype="float64", **kw):
+        its = []
+        for j, it in enumerate(items):
+            d = {"kind": "spd", "seed": 8000 + 17 * j + n, "nrhs": 1, "cexp": 1, "dscale": 0}
+            d.update(it)
+            its.append(d)
+        return {"kind": "chol", "upper": upper, "dtype": dtype, "batch": list(batch), "n": n, "items": its, **kw}
+
+    def sp(**kw):
+        d = {"kind": "sparse", "api": "bsr_bsc_matmul", "sm": 3, "sn": 4, "sp": 3, "dm": 2, "dn": 3, "dp": 2, "pa": "random",
+             "pb": "random", "da": 0.5, "db": 0.5, "disjoint": False, "zeroval": False, "stale": True, "data": "int",
+             "dtype": "float64", "vscale": 0, "vscale2": 0, "seed": 9001}
+        d.update(kw)
+        return d
+
+    C = {"ls": [], "chol": [], "cg": [], "sparse": []}
+    for solver in ("PINV", "LSTSQ", "LSTSQ:gelsd"):
+        C["ls"] += [
+            ls(solver, 1, 1, [{}]), ls(solver, 1, 1, [{"kind": "int", "r": 0, "cexp2": 0}]),
+            ls(solver, 5, 3, [{"cexp": 8}]), ls(solver, 3, 5, [{"cexp": 8, "b": "consistent"}]),
+            ls(solver, 6, 6, [{"kind": "int", "r": 3, "cexp2": 10}]), ls(solver, 7, 4, [{"kind": "int", "r": 1, "cexp2": 0, "b": "zero"}]),
+            ls(solver, 4, 9, [{"kind": "int", "r": 0, "cexp2": 0}, {"cexp": 8, "ascale": 100, "bscale": -30},
+                              {"kind": "int", "r": 3, "cexp2": 20}, {"cexp": 2}], batch=(2, 2)),
+            ls(solver, 5, 5, [{"cexp": 3}, {"cexp": 1}, {"cexp": 6}], batch=(3,), expand="A"),
+            ls(solver, 6, 3, [{"cexp": 4}], alias=True), ls(solver, 8, 5, [{"cexp": 2}], view="strided", viewb="slice"),
+            ls(solver, 4, 4, [{"cexp": 1}], dtype="float32", view="T"), ls(solver, 40, 40, [{"cexp": 8}]),
+            ls(solver, 57, 23, [{"cexp": 6}]),
+        ]
+    C["ls"] += [ls("PINV:herm", 6, 6, [{"cexp": 4, "sym": True}]), ls("PINV:rtol", 8, 6, [{"cexp": 4}]),
+                ls("PINV:rtol", 6, 6, [{"cexp": 6, "ascale": 20}]), ls("PINV:atol", 7, 7, [{"cexp": 3}]),
+                ls("PINV:atol", 5, 8, [{"cexp": 2, "ascale": -20}]), ls("LSTSQ:rcond", 9, 5, [{"cexp": 4}]),
+                ls("LSTSQ:rcond", 6, 6, [{"cexp": 7, "ascale": 20}]),
+                {**ls("LSTSQ", 4, 3, [{}]), "malformed": "inf"}]
+    for upper in (False, True):
+        C["chol"] += [
+            ch(1, [{}], upper), ch(1, [{"kind": "zero"}], upper), ch(2, [{"kind": "indef", "j": 1, "nexp": 0, "cexp": 0}], upper),
+            ch(12, [{"cexp": 8}], upper), ch(40, [{"cexp": 6, "nrhs": 2}], upper), ch(48, [{"cexp": 3}], upper),
+            ch(6, [{"kind": "badlast", "by": 1}], upper), ch(6, [{"kind": "badfirst", "by": 1}], upper),
+            ch(9, [{"kind": "indef", "j": 4, "nexp": 9, "cexp": 0}], upper), ch(5, [{"kind": "singular"}], upper),
+            ch(7, [{"cexp": 0, "scale": -100}, {"cexp": 8, "scale": 100}, {"kind": "intspd"}, {"cexp": 3, "dscale": 8}], upper, batch=(4,)),
+            ch(5, [{}, {}, {"kind": "indef", "j": 2, "nexp": 1, "cexp": 1}], upper, batch=(3,)),
+            ch(5, [{"kind": "badlast", "by": 1}, {}, {}, {}], upper, batch=(2, 2)),
+            ch(6, [{"cexp": 2}, {"cexp": 4}], upper, batch=(2,), expand="A"), ch(6, [{"cexp": 2, "nrhs": 2}], upper, alias=True),
+            ch(8, [{"cexp": 3}], upper, view="strided", viewb="slice"), ch(4, [{"cexp": 2}], upper, dtype="float32", view="T"),
+        ]
+    def cg(n, seed, **kw):
+        return cg_call_case(n, seed, **kw)
+    C["cg"] += [
+        cg(1, 101), cg(2, 102, x0="partial"), cg(5, 103, x0="last", b="zero"), cg(7, 104, x0="exact"), cg(6, 105, bscale=-30),
+        cg(6, 106, bscale=30, ascale=-30), cg(8, 107, M="jacobi", Mlayout="csr"), cg(9, 108, layout="coo", x0="random"),
+        cg(12, 109, layout="bsr:3", cexp=2), cg(40, 110), cg(40, 111, spec="lap", layout="csr"), cg(33, 112, spec="cluster", M="approx"),
+        cg(64, 113, cexp=3), cg(10, 114, bshape="vec", cexp=1), cg(6, 115, tol=1e-8, cexp=1), cg(5, 116, maxiter=2, cexp=1),
+        cg(8, 117, view="strided", viewb="slice", x0="random", M="jacobi", cexp=1), cg(7, 118, view="T", viewb="strided", x0="far", cexp=1),
+        cg(4, 119, dtype="float32", tol=1e-3), cg(16, 120, bscale=100, ascale=-100, cexp=2), cg(3, 121, maxiter=0),
+        cg(6, 122, bscale=-100, cexp=1), cg(9, 123, bscale=-100, ascale=100, x0="random", cexp=1),
+    ]
+    C["sparse"] += [
+        sp(pa="empty"), sp(pb="empty"), sp(pa="empty", pb="empty"), sp(pa="full", pb="full"), sp(disjoint=True, da=1.0, db=1.0),
+        sp(pa="lastcol", pb="lastrow"), sp(pa="firstcol", pb="lastrow"), sp(pa="lastcol", pb="firstrow"), sp(pa="diag", pb="diag"),
+        sp(pa="single", pb="full", seed=9002), sp(pa="full", pb="single", seed=9003), sp(sm=1, sn=1, sp=1, dm=1, dn=1, dp=1, pa="full", pb="full"),
+        sp(sn=6, da=0.3, db=0.3, seed=9004), sp(sn=6, da=0.3, db=0.3, seed=9005, api="_sparse_csr_mm"), sp(dm=4, dn=1, dp=4, seed=9006),
+        sp(dm=7, dn=5, dp=6, seed=9007), sp(sm=11, sn=9, sp=10, da=0.2, db=0.2, seed=9008), sp(zeroval=True, seed=9009),
+        sp(data="float", vscale=-100, vscale2=100, seed=9010), sp(data="float", dtype="float32", vscale=-40, seed=9011),
+        {**sp(seed=9012), "malformed": "blk", "dn2": 1}, {**sp(seed=9013), "malformed": "dim"},
+    ]
+    return C
+
+
+def check_empty_batch(ctx: Ctx):
+    """an empty batch is a valid batch: the result is the empty batch of solutions"""
+    for name in ("PINV", "LSTSQ", "Cholesky"):
+        for dtype in ("float64", "float32"):
+            case = {"kind": "empty-batch", "solver": name, "dtype": dtype, "n": 3}
+            A = torch.zeros(0, 3, 3, dtype=tdt(dtype))
+            b = torch.zeros(0, 3, 1, dtype=tdt(dtype))
+            sol = S().Cholesky() if name == "Cholesky" else make_solver(name)
+            ctx.note_case(("empty-batch", name, dtype), False)
+            try:
+                x = sol(A, b)
+            except Exception as e:
+                ctx.fail(case, f"raises: {name} raised on an empty batch: {type(e).__name__}: {str(e)[:80]}")
+                continue
+            if not isinstance(x, torch.Tensor) or tuple(x.shape) != (0, 3, 1) or x.dtype != A.dtype:
+                ctx.fail(case, f"shape: {name} on an empty batch returned {getattr(x, 'shape', type(x).__name__)}")
+
+
 def gen_history_cases(ctx: Ctx, count):
     rng = ctx.rng
     H = []
@@ -1168,8 +1442,23 @@ def gen_history_cases(ctx: Ctx, count):
                     ascale=rng.choice([0, 0, -30, 30]), bscale=rng.choice([0, 0, -30, 30]),
                     b=rng.choice(["generic"] * 5 + ["zero"]), x0=rng.choice(["none", "none", "zeros", "random", "partial"]),
                     M=rng.choice(["none", "none", "jacobi", "scaled"]), Mlayout=rng.choice(["dense", "csr"]),
-                    tol=tol, maxiter=maxiter))
+                    tol=tol, maxiter=maxiter,
+                    dtype=rng.choice(["float64", "float64", "float32"]) if (tol is not None and tol >= 1e-3) else "float64",
+                    view=rng.choice(["plain", "T", "slice", "strided"]), viewb=rng.choice(["plain", "slice", "strided"])))
+                if calls[-1]["x0"] == "none" and rng.random() < 0.3:
+                    calls[-1]["bshape"] = "vec"
+                if calls[-1]["dtype"] == "float32":
+                    calls[-1].update({"cexp": min(calls[-1]["cexp"], 1), "ascale": 0, "bscale": 0})
             H.append({"kind": "history", "solver": "CG", "tol": tol, "maxiter": maxiter, "tag": order, "calls": calls})
+            if rng.random() < 0.35:
+                # stale-read history: same shapes, the caller's OWN tensors are overwritten in place between the calls
+                n = rng.choice([1, 2, 5, 9, 17, 33])
+                base = dict(calls[0], n=n, layout="dense", Mlayout="dense", dtype="float64", bshape="col", x0=rng.choice(["none", "random"]),
+                            M=rng.choice(["none", "jacobi"]), cexp=rng.choice([0, 1, 2, 3]) if n >= 9 else 1)
+                H.append({"kind": "history", "solver": "CG", "tol": tol, "maxiter": maxiter, "tag": "inplace", "inplace": True,
+                          "calls": [dict(base, seed=rng.randrange(1 << 30), spec=rng.choice(["log", "cluster", "uniform"]),
+                                         bscale=rng.choice([0, -30, 30]), b=rng.choice(["generic", "generic", "zero"]))
+                                    for _ in range(rng.randint(2, 4))]})
         elif c < 0.8:
             name = rng.choice(["PINV", "LSTSQ", "LSTSQ:gelsd"])
             calls = []
@@ -1184,6 +1473,24 @@ def gen_history_cases(ctx: Ctx, count):
                     it.pop("sym", None)
                 calls.append({k: v for k, v in sub.items() if k != "solver"})
             H.append({"kind": "history", "solver": name, "tag": order, "calls": calls})
+            if rng.random() < 0.5:
+                base = {k: v for k, v in calls[0].items() if k not in ("expand", "alias", "view", "viewb")}
+                cl = []
+                for _ in range(rng.randint(2, 4)):
+                    sub = gen_ls_cases(ctx, 1)[0]
+                    its = [dict(rng.choice(sub["items"]), seed=rng.randrange(1 << 30)) for _ in base["items"]]
+                    for it in its:
+                        it.pop("sym", None)
+                        if it["kind"] == "int":
+                            it["r"] = min(it["r"], base["m"], base["n"])
+                            if base["dtype"] == "float32":
+                                it["cexp2"] = min(it["cexp2"], 2)
+                        elif base["dtype"] == "float32":
+                            it["cexp"], it["ascale"] = min(it["cexp"], 3), max(min(it.get("ascale", 0), 20), -20)
+                        if base["dtype"] == "float32":
+                            it["bscale"] = max(min(it.get("bscale", 0), 30), -30)
+                    cl.append(dict(base, items=its))
+                H.append({"kind": "history", "solver": name, "tag": "inplace", "inplace": True, "calls": cl})
         else:
             upper = rng.random() < 0.5
             calls = []
@@ -1192,6 +1499,18 @@ def gen_history_cases(ctx: Ctx, count):
                 sub["n"] = n
                 calls.append({k: v for k, v in sub.items() if k != "upper"})
             H.append({"kind": "history", "solver": "Cholesky", "upper": upper, "tag": order, "calls": calls})
+            if rng.random() < 0.5:
+                base = {k: v for k, v in calls[0].items() if k not in ("expand", "alias", "view", "viewb")}
+                cl = []
+                for _ in range(rng.randint(2, 4)):
+                    sub = gen_chol_cases(ctx, 1)[0]
+                    its = [dict(rng.choice(sub["items"]), seed=rng.randrange(1 << 30), nrhs=base["items"][0]["nrhs"]) for _ in base["items"]]
+                    if base["dtype"] == "float32":
+                        for it in its:
+                            it["cexp"] = min(it.get("cexp", 0), 3); it["nexp"] = min(it.get("nexp", 0), 3)
+                            it["scale"] = max(min(it.get("scale", 0), 20), -20)
+                    cl.append(dict(base, items=its))
+                H.append({"kind": "history", "solver": "Cholesky", "upper": upper, "tag": "inplace", "inplace": True, "calls": cl})
     return H
 
 
@@ -1220,9 +1539,14 @@ def run_history(ctx: Ctx, hists):
         sizes = [c["n"] if base in ("CG", "Cholesky") else c["m"] for c in h["calls"]]
         ctx.count("history.order." + ("asc" if sizes == sorted(sizes) else "desc" if sizes == sorted(sizes, reverse=True) else "mixed"))
         ctx.sample({"stream": "history", "solver": name, "tag": h.get("tag"), "sizes": sizes}, cap=20)
+        bufs = {} if h.get("inplace") else None
+        if bufs is not None:
+            ctx.count("history.inplace")
         for k, c in enumerate(h["calls"]):
             c = dict(c)
             c["_sol"], c["_report"], c["_call"] = sol, hp, k
+            if bufs is not None:
+                c["_buf"] = bufs
             if base == "CG":
                 c["tol"], c["maxiter"] = h.get("tol"), h.get("maxiter")
                 run_cg(ctx, [c])
@@ -1293,7 +1617,19 @@ def gen_ls_cases(ctx: Ctx, count):
             it["bscale"] = rng.choice([0, 0, 0, -30, 30] + ([-100, 100] if dtype == "float64" else []))
             it["seed"] = rng.randrange(1 << 30)
             items.append(it)
-        cases.append({"kind": "ls", "solver": solver, "dtype": dtype, "batch": batch, "m": m, "n": n, "items": items})
+        if nb >= 3 and solver != "PINV:herm" and rng.random() < 0.35:
+            # mixed-regime batch: zero matrix, worst conditioning + extreme scale, rank-deficient graded, ordinary — side by side
+            cmax = 8 if dtype == "float64" else 3
+            items[0].update({"kind": "int", "r": 0, "cexp2": 0})
+            items[1].update({"kind": "float", "cexp": cmax, "ascale": 100 if dtype == "float64" else 20})
+            items[2].update({"kind": "int", "r": max(min(m, n) - 1, 0), "cexp2": 20 if dtype == "float64" else 2})
+            items[1]["bscale"] = -30
+        cases.append({"kind": "ls", "solver": solver, "dtype": dtype, "batch": batch, "m": m, "n": n, "items": items,
+                      "view": rng.choice(["plain", "plain", "T", "slice", "strided"]), "viewb": rng.choice(["plain", "plain", "T", "slice", "strided"])})
+        if nb > 1 and rng.random() < 0.2:
+            cases[-1]["expand"] = rng.choice(["A", "b"])
+        elif rng.random() < 0.06:
+            cases[-1]["alias"] = True
         # non-finite entries: only LSTSQ.forward promises a loud failure (its NaN assertion); PINV/pinv has no such
         # clause and matrices with infinite entries are outside the property's quantifier (see notes/C10.md)
         if rng.random() < 0.12 and solver in ("LSTSQ", "LSTSQ:gelsd", "LSTSQ:gelss"):
@@ -1361,7 +1697,17 @@ def gen_chol_cases(ctx: Ctx, count):
             if kind in ("badlast", "badfirst", "badmid"):
                 it["by"] = rng.choice([1, 1, 5])
             its.append(it)
-        cases.append({"kind": "chol", "upper": rng.random() < 0.5, "dtype": dtype, "batch": batch, "n": n, "items": its})
+        if nb >= 3 and mode in ("good", "onebad") and rng.random() < 0.5:
+            # mixed-regime batch: best / worst conditioning, extreme scales, integer data side by side
+            for it, (ce, sc) in zip([t for t in its if t["kind"] == "spd"], [(0, -100), (8, 100), (3, 0), (6, 30)]):
+                it["cexp"] = min(ce, 8 if dtype == "float64" else 3)
+                it["scale"] = sc if dtype == "float64" else max(min(sc, 20), -20)
+        cases.append({"kind": "chol", "upper": rng.random() < 0.5, "dtype": dtype, "batch": batch, "n": n, "items": its,
+                      "view": rng.choice(["plain", "plain", "T", "slice", "strided"]), "viewb": rng.choice(["plain", "plain", "T", "slice", "strided"])})
+        if nb > 1 and rng.random() < 0.2:
+            cases[-1]["expand"] = rng.choice(["A", "b"])
+        elif rng.random() < 0.06 and n >= nrhs:
+            cases[-1]["alias"] = True
     return cases
 
 
@@ -1403,6 +1749,7 @@ def gen_cg_cases(ctx: Ctx, count):
             "x0": rng.choice(["none", "none", "none", "zeros", "random", "partial", "last", "far", "exact"]),
             "M": Mk, "Mlayout": rng.choice(["dense", "dense", "csr", "coo"]),
             "tol": tol, "maxiter": maxiter, "bshape": rng.choice(["col", "col", "vec"]),
+            "view": rng.choice(["plain", "plain", "T", "slice", "strided"]), "viewb": rng.choice(["plain", "plain", "T", "slice", "strided"]),
             "seed": rng.randrange(1 << 30)})
         if cases[-1]["bshape"] == "vec" and cases[-1]["x0"] != "none":
             cases[-1]["bshape"] = "col"   # a 1-D b with an initial guess is outside the documented call shapes
@@ -1444,7 +1791,7 @@ def gen_sparse_cases(ctx: Ctx, count):
             "vscale": rng.choice([0, 0, 0, -40, 40, -100]), "vscale2": rng.choice([0, 0, 0, -40, 40, 100]),
             "pa": rng.choice(pats), "pb": rng.choice(pats),
             "da": rng.choice([0.0, 0.1, 0.3, 0.5, 0.8, 1.0]), "db": rng.choice([0.0, 0.1, 0.3, 0.5, 0.8, 1.0]),
-            "disjoint": rng.random() < 0.08, "zeroval": rng.random() < 0.1,
+            "disjoint": rng.random() < 0.08, "zeroval": rng.random() < 0.1, "stale": rng.random() < 0.25,
             "data": rng.choice(["int", "int", "float"]), "dtype": rng.choice(["float64", "float32"]),
             "seed": rng.randrange(1 << 30)})
         if rng.random() < 0.06:      # beyond the documented block sizes 1..4 / small grids
@@ -1568,15 +1915,23 @@ def run_dispatch(ctx: Ctx, skip_merge_join=False):
 
 def run(ctx: Ctx):
     torch.set_num_threads(1)   # all systems are <= 40 x 40: threads only add contention on a shared box
-    sparse_cases = gen_sparse_cases(ctx, ctx.pick(500, 9000))
+    C = corner_cases()
+    sparse_cases = C["sparse"] + gen_sparse_cases(ctx, ctx.pick(350, 7000))
     alive = sparse_canary(ctx, sparse_cases)
+    # deterministic corner corpus first (identical for every seed), then the random streams
+    check_empty_batch(ctx)
+    run_chol_cases(ctx, C["chol"])
+    run_ls(ctx, C["ls"])
+    run_cg(ctx, C["cg"])
+    run_history(ctx, corner_histories())
+    ctx.count("corner.cases", len(C["chol"]) + len(C["ls"]) + len(C["cg"]) + len(C["sparse"]) + len(corner_histories()))
     run_dispatch(ctx, skip_merge_join=not alive)
     if alive:
         run_sparse(ctx, sparse_cases)
-    run_chol_cases(ctx, gen_chol_cases(ctx, ctx.pick(400, 7000)))
-    run_ls(ctx, gen_ls_cases(ctx, ctx.pick(400, 7000)))
-    run_cg(ctx, gen_cg_cases(ctx, ctx.pick(500, 9000)))
-    run_history(ctx, corner_histories() + gen_history_cases(ctx, ctx.pick(60, 1200)))
+    run_chol_cases(ctx, gen_chol_cases(ctx, ctx.pick(300, 5000)))
+    run_ls(ctx, gen_ls_cases(ctx, ctx.pick(300, 5000)))
+    run_cg(ctx, gen_cg_cases(ctx, ctx.pick(400, 7000)))
+    run_history(ctx, gen_history_cases(ctx, ctx.pick(40, 800)))
     ctx.notes.append("largest observed error/tolerance per oracle: " +
                      ", ".join(f"{k}={v:.3g}" for k, v in sorted(STATS.items())))
 
@@ -1624,6 +1979,8 @@ def replay(ctx: Ctx, case) -> bool:
     elif kind == "history":
         c.pop("call", None)
         run_history(ctx, [c])
+    elif kind == "empty-batch":
+        check_empty_batch(ctx)
     elif kind == "import":
         try:
             O()
